@@ -81,7 +81,12 @@ def sized_struct(r, name, total, placement):
     elif placement == "nested":
         inner_w = r.randint(max(1, min(total - 1, total - 60)), total - 1)
         iw = split_bits(r, inner_w, min(3, inner_w))
-        decls.append(shapes.mk_struct(name + "In", [("g%d" % i, i, scalar_of(r, w)) for i, w in enumerate(iw)]))
+        inner_fields = [("g%d" % i, i, scalar_of(r, w)) for i, w in enumerate(iw)]
+        if total > 64 and r.random() < 0.4:
+            # an oversize message whose nested struct ALSO has a member that takes no bits (an empty array, u0): the
+            # message is as large as its other members
+            inner_fields.insert(r.randint(0, len(inner_fields)), ("nothing", 40, r.choice([("arr", ("u", 8), 0), ("u", 0), ("arr", ("arr", ("i", 4), 0), 2)])))
+        decls.append(shapes.mk_struct(name + "In", inner_fields))
         rest = total - inner_w
         fields = [("n", 1, ("struct", name + "In"))]
         if rest:
